@@ -111,9 +111,9 @@ def check(repo, tier):
         fn = repo.fn(qual)
         return Finding('C15', rule, fn.where, what, msg, fn.file, fn.node.lineno)
 
-    def mk_x(sc, d):
+    def mk_x(sc, d, dt='real'):
         sc.m = sc.atom('m')
-        return Arr([d, sc.m], None, 'real', None, {'role': 'x'}, 'x')
+        return Arr([d, sc.m], None, dt, None, {'role': 'x'}, 'x')
     grids = []
     big = tier == 'thorough'
     for p in ((1, 2, 3, 4, 5) if big else (1, 2, 3)):
@@ -123,21 +123,23 @@ def check(repo, tier):
     for d, p, ao in (((1, 1, True), (1, 1, False), (1, 3, True), (2, 1, True), (2, 1, False), (2, 3, True), (2, 3, False), (3, 2, True), (3, 2, False), (4, 4, True), (3, 5, False)) if big
                      else ((2, 1, True), (2, 3, True), (2, 3, False), (3, 2, True))):
         grids.append(('function_major', {'d': d, 'p': p, 'add_one': ao}))
+    grids = grids + [(w_, dict(p_, data='integer')) for w_, p_ in grids[:1] + [g_ for g_ in grids if g_[0] != 'basis_decomposition'][:2]]
     for which, par in grids:
         entry = f'{MOD}.{which}'
+        xdt = 'int' if par.get('data') == 'integer' else 'real'
 
         def call(sc, single_core=None):
             if which == 'basis_decomposition':
-                x = mk_x(sc, 2)
+                x = mk_x(sc, 2, xdt)
                 phi = [[BasisFn(i, k) for k in range(2 + (i % 2))] for i in range(par['p'])]
                 sc.meta = {'modes': par['p'], 'nfun': [len(f) for f in phi]}
                 return sc.call(entry, x, phi, single_core=single_core)
             if which == 'coordinate_major':
-                x = mk_x(sc, par['d'])
+                x = mk_x(sc, par['d'], xdt)
                 phi = [BasisFn(k) for k in range(par['p'])]
                 sc.meta = {'modes': par['d'], 'nfun': [par['p']] * par['d']}
                 return sc.call(entry, x, phi, single_core=single_core)
-            x = mk_x(sc, par['d'])
+            x = mk_x(sc, par['d'], xdt)
             phi = [BasisFn(i) for i in range(par['p'])]
             sc.meta = {'modes': par['p'], 'nfun': [par['d'] + par['add_one']] * par['p']}
             return sc.call(entry, x, phi, add_one=par['add_one'], single_core=single_core)
@@ -157,6 +159,8 @@ def check(repo, tier):
                 bad.append(f'{len(cores)} cores for {nm} modes (expected {nm + 1})')
             if len({id(c.buf) for c in cores}) != len(cores):
                 bad.append('two cores are the same array (built by list repetition?)')
+            for e in sc.events('float-loss') + sc.events('complex-loss'):
+                bad.append('values of the basis functions are written into an array of a narrower dtype (they are truncated): ' + e['detail'][:110])
             full_stores = [[describe_store(st) for st in c.tags.get('stores', [])] for c in cores[:nm]]
             for i, c in enumerate(cores[:nm]):
                 bad += core_content_problems(which, par, i, c, sc.meta['nfun'][i], sc.m)
@@ -255,5 +259,12 @@ def check(repo, tier):
         for root, sites in effects.items():
             s0 = sorted(sites)[0]
             run.add(Finding('C15', 'D4', fn.where, f'{root} <- {s0[0]}', f'argument `{root}` is modified in place ({s0[1]}:{s0[2]} {s0[3]}): a later call with the same object sees different settings', fn.file, fn.node.lineno))
+    from .p_c06 import rule_f
+    ff, nf = rule_f(repo, prop='C15')
+    ff = [f for f in ff if f.where.split('::')[0] == MOD]
+    for f in ff:
+        f.rule = 'D4'
+        run.add(f)
+    run.oblige('D4', ('no module-level state in transform.py',), not ff)
     run.floor('obligations decided', run.obligations, 30)
     return run
